@@ -37,7 +37,7 @@ pub struct GenOpts {
     pub glyph_lib_linebreaks: bool,
     /// F3: notes with leading / trailing white space, and the empty note
     pub note_blanks: bool,
-    /// F2: kerning / font-info numbers of magnitude >= 2^31, or non-zero within 1e-15 of an integer
+    /// F2 remainder: non-zero kerning / font-info numbers of magnitude <= 1e-12 (flushed to 0)
     pub f2_numbers: bool,
     /// F13: formatVersionMinor != 0 together with a creator that is not norad's
     pub f13_meta: bool,
@@ -1217,16 +1217,11 @@ impl<'a> G<'a> {
     }
 }
 
-/// true iff norad's integer-or-float writers (as of the unrepaired tree) keep `v` within 1e-9
+/// true iff norad's integer-or-float writers keep `v` within 1e-9: since the repair of the
+/// number writers (b67254d) the only values they still change are non-zero values of magnitude
+/// <= f64::EPSILON, which are written as `<integer>0</integer>` (flush to zero).
 pub fn iof_safe(v: f64) -> bool {
-    if !v.is_finite() {
-        return false;
-    }
-    if v.abs() >= 2147483648.0 {
-        return false;
-    }
-    let d = (v - v.round()).abs();
-    d == 0.0 || d > 1e-12
+    v.is_finite() && (v == 0.0 || v.abs() > 1e-12)
 }
 
 /// fontinfo.plist keys of the UFO 3 specification (without `guidelines`) and the kind of value
